@@ -13,13 +13,14 @@ claimed = {
    note=(TB + "The emulator-side formula is transcribed into the contract, not mechanically extracted (the emulator's state interface is modelled differently under C03). Whole-program equivalence of the two modes needs program-level reasoning outside this technique."),
    design="5 (C02)", technique="deductive verification: WP-style VC generation over go/ssa + SMT (return-site obligation)"),
  "C03": dict(
-   text=("Every scalar ALU handler of both ALUs (SOP1, SOP2, SOPC, SOPK, SOPP branches; 116 handlers) is verified against an ISA table "
+   text=("Every scalar ALU handler of both ALUs (SOP1, SOP2, SOPC, SOPK, SOPP branches; 116 handlers) and the integer vector handlers of both ALUs (VOP2 integer/logic/shift/carry, VOP1 mov/not/bfrev, "
+         "VOPC and VOP3a integer compares, VOP3a integer arithmetic, VOP3b carry forms; about 130 handlers) are verified against an ISA table "
          "transcribed from the GCN3 manual: for all operand descriptors the decoder can produce and all values of the operands, SCC, VCC, EXEC, PC, "
-         "the final abstract register state equals the prescribed one and nothing else changes. bitops helpers carry full functional contracts. "
-         "Vector, memory and float handlers are not yet under contract (see DESIGN.md)."),
+         "the final abstract register state equals the prescribed one and nothing else changes (vector handlers: per lane, through the lane-loop summarisation). bitops helpers carry full functional contracts. "
+         "Floating-point, 16-bit, memory (SMEM/FLAT/DS) and SDWA/DPP forms are not yet under contract (see DESIGN.md)."),
    note=(TB + "Assumed: the InstEmuState interface contract (array-of-cells view of the register stores, proved for the implementers under C07 where claimed); "
          "register descriptors come from insts.Regs; inline integer constants are -16..64; SCC holds one bit; unsafe reinterpret casts in emu/util.go are bit identity. "
-         "29 deviations from the manual are recorded in known_findings.txt."),
+         "The deviations from the manual found so far (29 scalar, two dozen vector input classes) are recorded in known_findings.txt; two of them (v_med3_u32 in both ALUs) were repaired."),
    design="5 (C03)", technique="deductive verification: WP-style VC generation over go/ssa + SMT (contracts bound to an ISA table)"),
  "C04": dict(
    text=("Every per-format decoder (SOP2, SOP1, SOPC, SOPK, SOPP, VOPC, VOP1, VOP2, VOP3a, VOP3b, SMEM, FLAT, DS) and the operand decoder getOperand, "
@@ -67,10 +68,10 @@ claimed = {
          "the explicit guard 'not all wg allocated' is kept as a run-time check (its unreachability needs a prefix-sum argument). Suspect not yet decided: formWavefronts for partial work-groups whose row pitch does not divide 64 (DESIGN.md)."),
    design="5 (C08)", technique="deductive verification: WP-style VC generation over go/ssa + SMT (integer mode with overflow obligations, loop invariants)"),
  "C06": dict(
-   text=("For the 38 integer VOP2 handlers of the two ALUs that are under a per-lane ISA contract (see C03), lane independence and EXEC obedience follow from the contract itself: "
+   text=("For the integer vector handlers of the two ALUs that are under a per-lane ISA contract (VOP2, VOP1 mov/not/bfrev, VOPC and VOP3a compares, VOP3a arithmetic, VOP3b carry forms; see C03), lane independence and EXEC obedience follow from the contract itself: "
          "the 64-iteration lane loop is summarised by clause invariants proving that iteration i reads only lane i's operands and uniform operands, writes only lane i's destination cells "
          "and bit i of VCC/SDST, and does so only when EXEC bit i is set, with the lane result equal to a function of lane i's inputs that does not mention i. "
-         "VOP1/VOPC/VOP3, DS and FLAT handlers and the zero-annotation two-copy sweep of DESIGN.md are not built yet."),
+         "Floating-point handlers, DS and FLAT handlers and the zero-annotation two-copy sweep of DESIGN.md are not built yet."),
    note=(TB + "Shares obligations with C03 (same contracts, tagged with both properties). The C03 value deviations of the v_addc/v_subb family (per-lane, not cross-lane) are outside the claim: "
          "their lanes are exempted through scope lines in known_findings.txt, listed in the evidence assumptions."),
    design="5 (C06)", technique="deductive verification: lane-loop summarisation (Houdini-filtered clause invariants with bit/cell meta-lemmas) over go/ssa + SMT"),
